@@ -52,3 +52,11 @@ package v1beta1
 //@ requires r != nil && nonEmpty(r)
 //@ ensures result == (len(ite(r.BlueGreen != nil, r.BlueGreen.TrafficRoutings, r.Canary.TrafficRoutings)) > 0)
 //@ pure
+
+//@ define realPartitionSpec(ro) = nonEmpty(ro.Spec.Strategy) && ro.Spec.Strategy.BlueGreen == nil && !(ro.Spec.WorkloadRef.APIVersion == "apps/v1" && ro.Spec.WorkloadRef.Kind == "Deployment" && ro.Spec.Strategy.Canary.EnableExtraWorkloadForCanary)
+
+//@ func IsRealPartition
+//@ props C04 C09
+//@ requires rollout != nil
+//@ ensures result == realPartitionSpec(rollout)
+//@ pure
